@@ -824,6 +824,12 @@ static void oracle_copy_bytes(const std::string& F, const std::string& keybase, 
 			s2.reset();
 			std::string gotAlone = s1::save(alone, true);
 			if (gotAlone != ref) st.violation(keybase + ":model-copy-bytes-differ", what + ": a copy saved after its source was destroyed differs from the source's save (" + first_diff(ref, gotAlone) + ")", cj);
+			// and a default save (bounds are recomputed through the shapes' cached geometry) against a twin's default save
+			NifFile twinD;
+			if (s1::load(twinD, F) == 0) {
+				std::string refD = s1::save(twinD, false), gotD = s1::save(alone, false);
+				if (gotD != refD) st.violation(keybase + ":model-copy-bytes-differ", what + ": a default save of a copy whose source was destroyed differs from a twin's default save (" + first_diff(refD, gotD) + ")", cj);
+			}
 		}
 	}
 	{
@@ -971,9 +977,12 @@ static std::vector<Point> run_isolated_generic(const std::function<std::vector<P
 		if (got_points) {
 			// the reader accepted the block; the fault happened while writing it back or re-reading the library's own output
 			st.add("faults_after_accept");
-			if (A.prop == "C01")
+			// (C11/C14 rider: the fault happened while cloning / copying the accepted input, saving the copy or destroying either side)
+			if (A.prop == "C01" || A.prop == "C11" || A.prop == "C14")
 				st.violation(keybase + ":fault-after-accept:" + ci.key(),
-							 vf::strf("%s: the input was accepted, then writing it back or reloading the written file faulted: %s in %s", keybase.c_str(), ci.cls.c_str(), ci.frame.c_str()), cj);
+							 vf::strf("%s: the input was accepted, then %s faulted: %s in %s", keybase.c_str(),
+									  A.prop == "C01" ? "writing it back or reloading the written file" : "cloning / copying it, saving the copy or destroying either side", ci.cls.c_str(), ci.frame.c_str()),
+							 cj);
 		}
 		else {
 			st.add("rejected_by_fault");
